@@ -24,6 +24,33 @@ pub fn last_panic() -> String {
     LAST_PANIC.with(|p| p.borrow().clone())
 }
 
+/// A logger that accepts every record at every level and formats it into nothing: the arguments of every log statement
+/// in the library are evaluated (as they are in an application that logs at trace level), so a panic hidden in one shows.
+struct EagerLogger;
+
+impl log::Log for EagerLogger {
+    fn enabled(&self, _: &log::Metadata) -> bool {
+        true
+    }
+    fn log(&self, record: &log::Record) {
+        use std::fmt::Write;
+        struct Sink;
+        impl Write for Sink {
+            fn write_str(&mut self, _: &str) -> std::fmt::Result {
+                Ok(())
+            }
+        }
+        let _ = write!(Sink, "{}", record.args());
+    }
+    fn flush(&self) {}
+}
+
+pub fn install_logger() {
+    static L: EagerLogger = EagerLogger;
+    let _ = log::set_logger(&L);
+    log::set_max_level(log::LevelFilter::Trace);
+}
+
 pub fn install_panic_hook() {
     let verbose = std::env::var("VERIF_VERBOSE").is_ok();
     std::panic::set_hook(Box::new(move |info| {
